@@ -115,9 +115,13 @@ def run(ctx):
     ctx.rule = ('every generated query of C01-C05 (succeeding and failing) over Python lists: deep snapshot + id() identity of input/join rows after the run, no output row is an input row object; '
                 'pandas dataframes (equals + dtypes), CSV input/join files (sha256 + mtime), sqlite file (sha256 + trace of every SQL statement = model sql_of_query) over 14 query shapes; '
                 '21 benign/hostile table identifiers in the table_name argument and in JOIN text; non-trivial = distinct case with a non-empty source')
+    # rbql-js/rbql.js is an anchor of this property too: the JavaScript leg runs language-neutral queries of this shape through rbql-js
+    importlib.import_module('props.c19').js_leg(ctx, THEOREM, None, 600 if ctx.tier == 'quick' else 60000)
 
 
 def replay(ctx, case):
+    if case.get('impl') == 'js':
+        return importlib.import_module('props.c19').replay(ctx, case)
     g = lib.run_impl_py('c06', [case], shards=1, extra_env={'VERIF_SCRATCH': lib.BUILD})[0]
     ctx.count()
     ok = isinstance(g, dict) and g.get('sources_ok') is True and g.get('alias', False) is False
